@@ -1,0 +1,1 @@
+//! Verification hooks: pool (cfg `rten_verif`).
